@@ -14,6 +14,12 @@ impl Flags {
         assert forall|i: u8| 0 <= i < 8 implies !#[trigger] bit(0u8, i) by { assert((0u8 >> i) & 1 == 0) by(bit_vector); }
         Flags { bits: 0 } }
     pub fn bits(&self) -> (r: u8) ensures r == self.bits { self.bits }
+    // bitflags 2.x: from_bits rejects any bit that is not a named flag; _truncate drops such bits; _retain keeps them
+    pub fn from_bits(bits: u8) -> (r: Option<Flags>)
+        ensures r == (if bits & !Flags::VX_ALL.bits == 0 { Some(Flags { bits }) } else { None::<Flags> })
+    { if bits & !Flags::VX_ALL.bits == 0 { Some(Flags { bits }) } else { None } }
+    pub fn from_bits_truncate(bits: u8) -> (r: Flags) ensures r.bits == bits & Flags::VX_ALL.bits { Flags { bits: bits & Flags::VX_ALL.bits } }
+    pub fn from_bits_retain(bits: u8) -> (r: Flags) ensures r.bits == bits { Flags { bits } }
     pub fn contains(&self, o: Flags) -> (r: bool)
         ensures r == (self.bits & o.bits == o.bits),
                 forall|k: u8| 0 <= k < 8 && o.bits == (1u8 << k) ==> r == self.has(k),
